@@ -83,10 +83,88 @@ Section General.
         end
     end.
 
-  (** every path of the set leads, through plain mappings, to a value that forces a reference into the set *)
+  (** [wwalk segs v]: a walk along [segs] starting at [v] cannot end in a value without a
+      reference into the set being rendered.  Through a plain mapping it goes on at the member;
+      a reference string met on the way has to be rendered first (so it must force); a
+      multiply-defined value either has a layer that is a forcing reference string, or -- no
+      string layer at all -- is flattened and the walk goes on in the merged mapping; at the end
+      of the path the value found must force.  Where the walk fails anyway (no such member, a
+      lookup into a scalar or a list, a merge conflict) nothing is required: no value comes out. *)
+  Fixpoint wwalk (segs : list string) (v : value) : Prop :=
+    match segs with
+    | [] => forces v
+    | k :: rest =>
+        match v with
+        | VMap m => match m_get (VStr k) m with Some v1 => wwalk rest v1 | None => True end
+        | VStr _ => forces v
+        | VList l =>
+            Exists (fun x => is_string x = true /\ forces x) l \/
+            (Forall (fun x => is_string x = false) l /\
+             match flattened "" (VList l) with
+             | Ok (VMap m) => match m_get (VStr k) m with Some v1 => wwalk rest v1 | None => True end
+             | _ => True
+             end)
+        | _ => True
+        end
+    end.
+
+  Lemma raw_wwalk : forall segs v v', raw_lookup segs v = Some v' -> forces v' -> wwalk segs v.
+  Proof.
+    induction segs as [|k segs IH]; intros v v' H Hf; cbn [raw_lookup wwalk] in *.
+    - injection H as <-. exact Hf.
+    - destruct v as [| | | | | m | |]; try discriminate.
+      destruct (m_get (VStr k) m) as [v1|]; [|discriminate]. exact (IH _ _ H Hf).
+  Qed.
+
+  (** every path of the set, walked from the parameters, ends in -- or passes through -- a value
+      that forces a reference into the set *)
   Hypothesis Hcyc : forall p, In p ks ->
-    exists k0 segs v0 v', split_on ":" p = k0 :: segs /\ m_get (VStr k0) root = Some v0 /\
-                          raw_lookup segs v0 = Some v' /\ forces v'.
+    exists k0 segs v0, split_on ":" p = k0 :: segs /\ m_get (VStr k0) root = Some v0 /\ wwalk segs v0.
+
+  Lemma sov_loop_nostr_id call st : forall l, Forall (fun x => is_string x = false) l -> sov_loop call st l = Ok l.
+  Proof.
+    induction l as [|x l IH]; intros H; cbn [sov_loop]; [reflexivity|]. inversion H as [|? ? Hx Hl]; subst.
+    rewrite Hx. cbn [bind]. rewrite (IH Hl). reflexivity.
+  Qed.
+
+  Lemma sov_loop_not_ok call st : forall l,
+    Exists (fun x => is_string x = true /\ forall s, not_ok (call x s)) l -> not_ok (sov_loop call st l).
+  Proof.
+    induction l as [|x l IH]; intros H; [inversion H|]. cbn [sov_loop].
+    inversion H as [? ? [Hs Hx] | ? ? Hl]; subst.
+    - rewrite Hs. specialize (Hx st). destruct (call x st) as [[y s1]| | |]; cbn [bind]; try exact I. contradiction.
+    - specialize (IH Hl). destruct (if is_string x then '(y, _) <- call x st ;; Ok y else Ok x); cbn [bind]; try exact I.
+      destruct (sov_loop call st l); cbn [bind]; try exact I. contradiction.
+  Qed.
+
+  (** a walk that comes back with a value comes back with one that forces *)
+  Lemma walk_forced f path :
+    (forall f', f' < f -> forall v st, forces v -> not_ok (interp f' root v st)) ->
+    forall segs v st trav, wwalk segs v ->
+    match walk_loop (interp_sov f root) path segs v st trav with
+    | Ok (w, _) => forces w
+    | _ => True
+    end.
+  Proof.
+    intros IHi. induction segs as [|key segs IH]; intros v st trav H; cbn [wwalk walk_loop] in *; [exact H|].
+    destruct f as [|f']; [exact I|].
+    destruct v as [| b | s | s | n | m | l | l]; cbn [interp_sov bind]; try exact I.
+    - (* a reference string on the way *)
+      pose proof (IHi f' ltac:(lia) (VStr s) st H) as Hn.
+      destruct (interp f' root (VStr s) st) as [[newv s1]| | |]; cbn [bind]; try exact I. contradiction.
+    - destruct (m_get (VStr key) m) as [v1|]; [apply IH, H | exact I].
+    - (* a multiply-defined value on the way *)
+      destruct H as [Hex | (Hns & Hfl)].
+      + assert (G : not_ok (sov_loop (interp f' root) st l)).
+        { apply sov_loop_not_ok. eapply Exists_impl; [|exact Hex]. intros x (Hs & Hx). split; [exact Hs|].
+          intros s0. apply IHi; [lia | exact Hx]. }
+        destruct (sov_loop (interp f' root) st l); cbn [bind]; try exact I. contradiction.
+      + rewrite (sov_loop_nostr_id _ _ _ Hns). cbn [bind].
+        destruct (flattened (current_key st) (VList l)) as [w| | |] eqn:Ef; cbn [bind]; try exact I.
+        rewrite (flattened_ck _ "" _ _ Ef) in Hfl.
+        destruct w as [| wb | ws | ws | wn | wm | wl | wl]; try exact I.
+        destruct (m_get (VStr key) wm) as [v1|]; [apply IH, Hfl | exact I].
+  Qed.
 
   Lemma walk_raw f path : forall segs v st trav v',
     raw_lookup segs v = Some v' ->
@@ -155,16 +233,17 @@ Section General.
       destruct (Nat.ltb RESOLVE_MAX_DEPTH (depth (with_depth st (S (depth st))))); [exact I|].
       destruct (token_slice f2 root parts (with_depth st (S (depth st)))) as [k| | |] eqn:Esl; cbn [bind]; try exact I.
       assert (k = p0) by exact (slice_unique parts _ _ _ _ _ _ Esl Hp0). subst k.
-      destruct (Hcyc p0 Hk) as (k0 & segs & v0 & v' & Hsplit & Hget & Hraw & Hfv).
+      destruct (Hcyc p0 Hk) as (k0 & segs & v0 & Hsplit & Hget & Hww).
       destruct (mem p0 (seen (with_depth st (S (depth st))))); [exact I|].
       rewrite Hsplit, Hget.
-      pose proof (walk_raw f2 p0 segs v0 (add_seen (with_depth st (S (depth st))) p0) [k0] v' Hraw) as Hwalk.
+      assert (IHi2 : forall f', f' < f2 -> forall v st, forces v -> not_ok (interp f' root v st)) by (intros f' Hf'; apply IHi; lia).
+      pose proof (walk_forced f2 p0 IHi2 segs v0 (add_seen (with_depth st (S (depth st))) p0) [k0] Hww) as Hwalk.
       destruct (walk_loop (interp_sov f2 root) p0 segs v0 (add_seen (with_depth st (S (depth st))) p0) [k0]) as [[w st3]| | |]; cbn [bind]; try exact I.
-      destruct Hwalk as [-> ->].
+      rename Hwalk into Hfv.
       destruct f2 as [|f3]; [exact I|]. cbn [interp_while].
-      destruct (is_string v' || is_vlist v') eqn:Eb.
-      - pose proof (IHi f3 ltac:(lia) v' (add_seen (with_depth st (S (depth st))) p0) Hfv) as Hn.
-        destruct (interp f3 root v' (add_seen (with_depth st (S (depth st))) p0)) as [[c sx]| | |]; cbn [bind]; try exact I. contradiction.
+      destruct (is_string w || is_vlist w) eqn:Eb.
+      - pose proof (IHi f3 ltac:(lia) w st3 Hfv) as Hn.
+        destruct (interp f3 root w st3) as [[c sx]| | |]; cbn [bind]; try exact I. contradiction.
       - apply Bool.orb_false_elim in Eb as [Es El]. split; [exact Hfv | split; assumption]. }
     split.
     - (* values *)
@@ -225,3 +304,15 @@ Section General.
     - exfalso. exact (interp_no_panic F0 root v st p Hroot Hw (H F0 (Nat.le_refl _))).
   Qed.
 End General.
+
+(** the special case of paths reached through plain mappings only *)
+Corollary forcing_a_cycle_is_an_error_raw root (Hroot : wf (VMap root)) ks :
+  (forall p, In p ks ->
+     exists k0 segs v0 v', split_on ":" p = k0 :: segs /\ m_get (VStr k0) root = Some v0 /\
+                           raw_lookup segs v0 = Some v' /\ forces root ks v') ->
+  forall v st, wf v -> forces root ks v -> exists F0 e, forall F, F0 <= F -> interp F root v st = Err e.
+Proof.
+  intros Hc. apply (forcing_a_cycle_is_an_error root Hroot ks).
+  intros p Hp. destruct (Hc p Hp) as (k0 & segs & v0 & v' & H1 & H2 & H3 & H4).
+  exists k0, segs, v0. split; [exact H1 | split; [exact H2 | exact (raw_wwalk root ks segs v0 v' H3 H4)]].
+Qed.
